@@ -1341,6 +1341,11 @@ class Signature:
                     param: composite.value
                     for param, (_, composite) in bound_args.items()
                 }
+                for param, (position, composite) in bound_args.items():
+                    # A parameter left at a default of `...` has the type of
+                    # its annotation inside the evaluator.
+                    if position is DEFAULT and composite.value == KnownValue(...):
+                        varmap[param] = self.parameters[param].get_annotation()
                 positions = {
                     param: position for param, (position, _) in bound_args.items()
                 }
